@@ -544,7 +544,9 @@ def check_minimize(prog, rep):
                             mp[i] = v
             if full:
                 mp = {1: 'pos', 2: 'pos'}
-            expect = ['L'] + (['LR'] if mp.get(2) == 'pos' else []) + (['LS'] if mp.get(1) == 'pos' else [])
+            # a trial whose optional component was not tested on this path must be made: for a present component it is the required trial, for an
+            # absent one it repeats the (failed) language-only trial - maximize is pure (CASC-PURE) - so it can neither succeed nor change the outcome
+            expect = ['L'] + (['LR'] if mp.get(2) in ('pos', None) else []) + (['LS'] if mp.get(1) in ('pos', None) else [])
             is_some = s.ret[0] == 'adt' and s.ret[2] == 'Some'
             if is_some:
                 if kinds != expect[:len(kinds)]:
